@@ -8,6 +8,7 @@ Spec/Unfinished, and the tables regenerated from the source (Generated/LexTables
 import ZygoVerif.Model.Lexer
 import ZygoVerif.Model.Parser
 import ZygoVerif.Model.LegacyLexer
+import ZygoVerif.Model.LegacyParser
 import ZygoVerif.Spec.Unfinished
 import ZygoVerif.Proofs.ParseChunks
 import ZygoVerif.Generated.LexTables
@@ -29,33 +30,34 @@ theorem feed_err (e : LexErr) (s : LexCore) (rs : List Char) : feed (.err e s) r
   | nil => rfl
   | cons r rs ih => simpa [feed] using ih
 
-/-- `LexNextRune` never touches the stream fields. -/
+/-- `LexNextRune` never touches the stream fields (nor the end-of-input mark). -/
 theorem step_keeps_streams (l l' : LexState) (c : Char) (h : l.step c = .ok l') :
-    l'.stream = l.stream ∧ l'.next = l.next :=
+    l'.stream = l.stream ∧ l'.next = l.next ∧ l'.finished = l.finished :=
   ((step_fields l c).1 l' h).2
 
 /-! ## 2. Chunk independence of the parser -/
 
 theorem resetAddNewInput_view (l : LexState) (c : List Char) :
     (resetAddNewInput l c).pending = c ∧ (resetAddNewInput l c).toLexCore = LexCore.init ∧
-      (resetAddNewInput l c).stream.isSome = true := by
+      (resetAddNewInput l c).stream.isSome = true ∧ (resetAddNewInput l c).finished = false := by
   simp [resetAddNewInput, LexState.reset, LexState.addNextStream, LexState.promote, LexState.pending,
     LexCore.init, Token.zero]
 
 theorem initState_view (l : LexState) (cs : List (List Char)) :
-    view (initState l cs) = ⟨LexCore.init, cs.flatten ++ eofPiece, []⟩ ∧ Parser.Inv (initState l cs) := by
+    view (initState l cs) = ⟨LexCore.init, cs.flatten ++ eofPiece, [], true⟩ ∧ Parser.Inv (initState l cs) := by
   cases cs with
   | nil =>
-    obtain ⟨h1, h2, h3⟩ := resetAddNewInput_view l []
-    simp [initState, view, PState.runes, h1, h2, Parser.Inv, h3]
+    obtain ⟨h1, h2, h3, _⟩ := resetAddNewInput_view l []
+    simp [initState, view, PState.runes, PState.willFinish, h1, h2, Parser.Inv, h3]
   | cons c rest =>
-    obtain ⟨h1, h2, h3⟩ := resetAddNewInput_view l c
-    simp [initState, view, PState.runes, h1, h2, Parser.Inv, h3]
+    obtain ⟨h1, h2, h3, _⟩ := resetAddNewInput_view l c
+    simp [initState, view, PState.runes, PState.willFinish, h1, h2, Parser.Inv, h3]
 
 /-- The final status and the cumulative expression list of a parse are those of the
-abstract interpreter on (fresh lexer core, all runes of the text + end of input). -/
+abstract interpreter on (fresh lexer core, all runes of the text + end of input, the end of
+the input will have been signalled). -/
 theorem parseChunksFrom_eq_abstract (l : LexState) (cs : List (List Char)) :
-    let r := runA (topLoop (fuelFor cs)) ⟨LexCore.init, cs.flatten ++ eofPiece, []⟩
+    let r := runA (topLoop (fuelFor cs)) ⟨LexCore.init, cs.flatten ++ eofPiece, [], true⟩
     (parseChunksFrom l cs).status = (match r.1 with | .ret _ => Status.done | .stop st => st) ∧
     (parseChunksFrom l cs).exprs = r.2.exprs := by
   obtain ⟨hv, hi⟩ := initState_view l cs
@@ -97,7 +99,7 @@ theorem reset_forgets (l : LexState) (cs : List (List Char)) :
     cases cs <;> simp [initState, resetAddNewInput, reset_eq_init]
   rw [this]
 
-example : parseChunksFrom ⟨{ LexCore.init with priori := 7, prevrune := ')' }, some ['x'], [['y']]⟩ [['a']] =
+example : parseChunksFrom ⟨{ LexCore.init with priori := 7, prevrune := ')' }, some ['x'], [['y']], true⟩ [['a']] =
     parseChunks [['a']] := reset_forgets _ _
 
 /-- Table fact: every field of the Go `Lexer` struct except the back pointer `parser` is
@@ -149,28 +151,122 @@ def parsePrefix (t : List Char) : Status :=
   | (.ret _, _) => .done
   | (.stop st, _) => st
 
-/-- the last emitted token is a `+`/`-` symbol at bracket depth 0 (recorded finding: the
-±Inf look-ahead waits there) -/
-def trailingSign (t : List Char) : Bool :=
-  match feed (.ok LexCore.init) t with
-  | .ok c =>
-    (match c.tokens.getLast? with
-     | some tk => tk.typ == .symbol && (tk.str == ['-'] || tk.str == ['+']) &&
-        (c.tokens.foldl Spec.Nest.tok {}).depth == 0
-     | none => false)
-  | .err _ _ => false
-
 /-- **`more_iff_unfinished`, full statement** (NOT proved in general; it is compared on every
-generated input by the `parse` channel: impl status vs this specification). -/
+generated input by the `parse` channel: impl status vs this specification). Two clauses: for a
+prefix (the end of the input not signalled) and for the finished text. There is no exception
+for a trailing sign any more (repo fix C13-02): the finished text `- ` is done; only as a prefix
+is a trailing top-level sign unfinished (`Spec.UnfinishedPrefix`: the token that follows
+decides between the symbol and `-Inf`). -/
 def MoreIffUnfinished : Prop :=
-  ∀ t : List Char, ∀ u : Bool, Spec.Unfinished t = some u → parsePrefix t ≠ .err → trailingSign t = false →
-    (parsePrefix t = .more ↔ u = true)
+  (∀ t : List Char, ∀ u : Bool, Spec.UnfinishedPrefix t = some u → parsePrefix t ≠ .err →
+    (parsePrefix t = .more ↔ u = true)) ∧
+  (∀ t : List Char, ∀ u : Bool, Spec.Unfinished (t ++ eofPiece) = some u → (parseChunks [t]).status ≠ .err →
+    ((parseChunks [t]).status = .more ↔ u = true))
 
 /-- partial: at top level the parser answers `more` at the end of the input exactly when
 the lexer is inside a string or rune literal; with tokens queued it never stops. -/
-theorem top_level_more_iff_literal (c : LexCore) (ex : List Sexp) (h : c.tokens = []) :
-    topGetA ex [] c = .finished (if inLiteral c then .more else .done) ⟨c, [], ex⟩ := by
+theorem top_level_more_iff_literal (c : LexCore) (ex : List Sexp) (fin : Bool) (h : c.tokens = []) :
+    topGetA ex fin [] c = .finished (if inLiteral c then .more else .done) ⟨c, [], ex, fin⟩ := by
   simp [topGetA, h]
+
+/-- is the token a lone `+` or `-`? -/
+def isSign (t : Token) : Bool := t.typ == .symbol && (t.str == ['-'] || t.str == ['+'])
+
+/-- partial (repo fix C13-02): **a sign at the end of a finished input never waits.** When every
+rune has been read, no token is queued and the end of the input has been signalled, the
+expression that starts with a lone `+`/`-` is that symbol — in every lexer state, at every depth. -/
+theorem sign_at_end_of_finished_input (c : LexCore) (ex : List Sexp) (t : Token) (f : Nat)
+    (ht : isSign t = true) (h : c.tokens = []) :
+    runA (parseExprTok (f + 1) t) ⟨c, [], ex, true⟩ = (.ret (.sym t.str false false), ⟨c, [], ex, true⟩) := by
+  obtain ⟨ty, str⟩ := t
+  simp only [isSign, Bool.and_eq_true, beq_iff_eq] at ht
+  obtain ⟨hty, hstr⟩ := ht
+  subst hty
+  have hs : (str == ['-'] || str == ['+']) = true := by simpa using hstr
+  unfold parseExprTok
+  simp only [hs, ↓reduceIte, bind, signPeek, Prog.bind, runA, peekWaitA, headIf, h, List.length_nil,
+    Nat.lt_irrefl, Bool.and_self, Token.endTk]
+  rfl
+
+/-- … and while the end has not been signalled it waits: the token that follows may be `Inf`. -/
+theorem sign_at_end_of_unfinished_input (c : LexCore) (ex : List Sexp) (t : Token) (f : Nat)
+    (ht : isSign t = true) (h : c.tokens = []) :
+    runA (parseExprTok (f + 1) t) ⟨c, [], ex, false⟩ = (.stop .more, ⟨c, [], ex, false⟩) := by
+  obtain ⟨ty, str⟩ := t
+  simp only [isSign, Bool.and_eq_true, beq_iff_eq] at ht
+  obtain ⟨hty, hstr⟩ := ht
+  subst hty
+  have hs : (str == ['-'] || str == ['+']) = true := by simpa using hstr
+  unfold parseExprTok
+  simp only [hs, ↓reduceIte, bind, signPeek, Prog.bind, runA, peekWaitA, headIf, h, List.length_nil,
+    Nat.lt_irrefl, Bool.and_false, Bool.false_eq_true]
+
+example : isSign ⟨.symbol, ['-']⟩ = true := by decide
+
+/-- Before the fix there was no end-of-input mark: on a state in which it is never set
+(`Legacy.Parser.initState`) the look-ahead after a sign IS `ParserPeekNextToken(0)`. -/
+theorem legacy_signPeek_is_waitPeek (extra fuel : Nat) (s : PState) (h1 : s.lex.finished = false) (h2 : s.eof = false) :
+    peekWaitRun true extra fuel s = peekWaitRun false extra fuel s := by
+  induction fuel generalizing s with
+  | zero => rfl
+  | succ n ih =>
+    have hdel : ∀ p fut st, (s.deliver p fut st).lex.finished = false ∧ (s.deliver p fut st).eof = false := by
+      intro p fut st; simp [PState.deliver, h2]
+    unfold peekWaitRun
+    split
+    · cases hf : s.fut with
+      | nil => simp [h1]
+      | cons p fut => exact ih _ (hdel p fut .more).1 (hdel p fut .more).2
+    · split
+      · rfl
+      · cases hr : readRune s.lex (s.lex.next.length + 1) with
+        | some cl =>
+          obtain ⟨c, l⟩ := cl
+          have hfin := (readRune_some _ _ _ _ hr).2.2.2.2
+          simp only
+          cases hst : l.step c with
+          | ok l' =>
+            have := ((step_fields l c).1 l' hst).2.2.2
+            exact ih { s with lex := l' } (by simp [this, hfin, h1]) h2
+          | err e l' => rfl
+        | none =>
+          simp only
+          cases hf : s.fut with
+          | nil => simp [h1]
+          | cons p fut => exact ih _ (hdel p fut .more).1 (hdel p fut .more).2
+
+example : (Legacy.Parser.initState LexState.init [['-']]).lex.finished = false ∧
+    (Legacy.Parser.initState LexState.init [['-']]).eof = false := by decide
+
+/-- the one expression of a parse is the plain symbol `n` -/
+def isOneSym (r : Result) (n : List Char) : Bool :=
+  match r.exprs with
+  | [.sym m false false] => m == n
+  | _ => false
+
+/-- the one expression of a parse is the float with bit pattern `b` -/
+def isOneFloat (r : Result) (b : Nat) : Bool :=
+  match r.exprs with
+  | [.float m false] => m == b
+  | _ => false
+
+/-- the recorded finding, on the pre-fix behaviour: the finished texts `- ` and `+ ` answered
+`more` (and no expression) -/
+theorem lone_sign_counterexample :
+    (Legacy.Parser.parseChunks ["- ".toList]).status = .more ∧ (Legacy.Parser.parseChunks ["+ ".toList]).status = .more ∧
+    (Legacy.Parser.parseChunks ["- ".toList]).exprs.length = 0 := by
+  decide +kernel
+
+/-- repaired: the finished texts `- ` and `+ ` are done and yield the symbol; as a prefix `- `
+waits, and `- ` followed by the piece `Inf` is the one float -Inf, as for the whole text `- Inf`
+(what chunk independence demands of the prefix) -/
+theorem lone_sign_fixed :
+    (parseChunks ["- ".toList]).status = .done ∧ isOneSym (parseChunks ["- ".toList]) ['-'] = true ∧
+    (parseChunks ["+ ".toList]).status = .done ∧ isOneSym (parseChunks ["+ ".toList]) ['+'] = true ∧
+    parsePrefix "- ".toList = .more ∧
+    isOneFloat (parseChunks ["- ".toList, "Inf".toList]) 0xfff0000000000000 = true ∧
+    isOneFloat (parseChunks ["- Inf".toList]) 0xfff0000000000000 = true := by
+  decide +kernel
 
 /-! ## 6. Tables regenerated from the source -/
 
@@ -191,6 +287,6 @@ theorem can_start_set_match : Generated.LexTables.canStartSet = canStartTable :=
 theorem can_start_table_is_model :
     ∀ n ∈ canStartTable, canStartSignedNumberAfter (Char.ofNat n) = true := by decide
 
-theorem tok_type_numbering : tokTypeNames.length = 38 ∧ TokType.tEnd.toNat = 37 ∧ modeNames.length = 15 := by decide
+theorem tok_type_numbering : tokTypeNames.length = 38 ∧ TokType.tEnd.toNat = 37 ∧ modeNames.length = 16 := by decide
 
 end ZygoVerif.Props.C13
